@@ -26,7 +26,9 @@ R  == INSTANCE Prng
 Hx == INSTANCE Hex
 Em == INSTANCE Emit
 VARIABLES nops, win, hist
-vars == <<inst, mech, gm, st, lastReseed, now, reply, nops, win, hist>>
+vars == <<inst, mech, gm, alg, st, lastReseed, now, reply, nops, win, hist>>
+(* exact instances name one primitive; envelope-only instances list all the primitives the trace is replayed on *)
+Alg == CHOOSE a \in Algs : TRUE
 
 Data(k, n) == R!Bytes(Seed, 1000 + 10 * nops + k, n)
 LastK(s) == IF Len(s) <= Window THEN s ELSE SubSeq(s, Len(s) - Window + 1, Len(s))
@@ -47,7 +49,7 @@ NInst(i) ==
   LET e == Data(1, i[1])
       n == Data(2, i[2])
       p == Data(3, i[3])
-  IN /\ Instantiate(Mech, Gm, e, n, p)
+  IN /\ Instantiate(Mech, Gm, Alg, e, n, p)
      /\ Step(<<"inst", i[1], i[2], i[3]>>,
              [op |-> "inst", e |-> Hx!FromBytes(e), n |-> Hx!FromBytes(n), p |-> Hx!FromBytes(p),
               res |-> reply'.kind, max |-> AdvertisedMax(Mech, Gm)])
@@ -78,6 +80,10 @@ Scripts == [ tick |-> << <<"inst", 32, 16, 0>>, <<"gen", 16, 0>>, <<"tick", Time
              sizes |-> << <<"inst", 32, 16, 0>>, <<"gen", 2048, 0>>, <<"gen", 2049, 7>>, <<"gen", 1, 0>>, <<"gen", 2047, 7>>,
                           <<"reseed", 32, 0>>, <<"gen", 2048, 7>>, <<"gen", 2049, 0>>, <<"gen", 0, 0>>, <<"gen", 33, 0>> >>,
              sizes2 |-> << <<"inst", 32, 16, 0>>, <<"gen", 2048, 0>>, <<"gen", 2049, 7>>, <<"gen", 33, 0>> >>,
+             \* another configured interval (security level 2: 1024): run to the gate, see refusals, reseed, go on
+             \* (instance constant Interval = 1024, envelope only)
+             level |-> << <<"inst", 32, 16, 0>> >> \o [i \in 1..(Interval + 2) |-> <<"gen", 1, 0>>]
+                       \o << <<"reseed", 32, 0>>, <<"gen", 1, 0>> >>,
              none |-> <<>> ]
 Script == Scripts[ScriptName]
 View == <<inst, st.reseed_counter, NeedReseed, win, IF Window >= MaxOps \/ Script # <<>> \/ Reach THEN nops ELSE 0>>
@@ -97,7 +103,7 @@ TypeOK == /\ nops <= MaxOps
           /\ B!IsBytes(st.V) /\ B!IsBytes(st.C) /\ B!IsBytes(st.Key)
           /\ (Exact /\ inst) => \/ mech = "hash" /\ Len(st.V) = SeedLen /\ Len(st.C) = SeedLen
                                 \/ mech = "hmac" /\ Len(st.V) = OutLen /\ Len(st.Key) = OutLen
-                                \/ mech = "ctr" /\ Len(st.V) = BlockLen /\ Len(st.Key) = KeyLen
+                                \/ mech = "ctr" /\ Len(st.V) = BlockLen /\ Len(st.Key) = KeyLenOf(alg)
 (* an "ok" generate returned exactly the requested number of bytes (checked on the emitted event) *)
 OutLenOK == LET ev == hist[Len(hist)]
             IN (Exact /\ ev.op = "gen" /\ ev.res = "ok") => Len(reply.out) = ev.n
